@@ -56,9 +56,54 @@ def parse_table(ctx, fn):
     return g, mf, res, loops[0], pv, table
 
 
+def _header_parser_keeps_repeats(ctx):
+    """The extension parsers reject a repeated parameter by looking at the length of the value list they are given; the header parser
+    must therefore collect EVERY occurrence.  The parameter loop of _parseExtensionsHeader is evaluated on an extension with the
+    parameters  k=v1; j=v2; k=v3; flag; flag  (opaque strings)."""
+    from ..core.tiny import Tiny, Sym, TinyRaise
+    fn = ctx.program.func(f"{WSP}._parseExtensionsHeader")
+    ctx.analysed(fn)
+    body = [x for x in fn.node.body if not (isinstance(x, ast.Expr) and isinstance(x.value, ast.Constant))]
+
+    def text(name, parts=None, lower=None):
+        me = Sym(name)
+        me.methods.update({"strip": lambda *a: me, "lower": lambda: (lower if lower is not None else me), "split": lambda sep=None, *a: list(parts.get(sep, [me])) if parts else [me]})
+        return me
+    vals = {n: text(f"value-{n}") for n in ("v1", "v2", "v3")}
+    params = [text("k=v1", {"=": [text("k", lower="k"), vals["v1"]]}), text("j=v2", {"=": [text("j", lower="j"), vals["v2"]]}),
+              text("k=v3", {"=": [text("k", lower="k"), vals["v3"]]}), text("flag", {"=": [text("flag", lower="flag")]}), text("flag", {"=": [text("flag", lower="flag")]})]
+    ext0 = text("permessage-deflate", lower="permessage-deflate")
+    one = text("one extension", {";": [ext0] + params})
+    header = text("header", {",": [one]})
+
+    def default(f_, a_, k_=None):
+        if f_ == "str" and len(a_) == 1:
+            return a_[0]
+        if f_.endswith(".join") and len(a_) == 1 and isinstance(a_[0], list) and len(a_[0]) == 1:
+            return a_[0][0]
+        raise AnalysisError(f"call {f_} in _parseExtensionsHeader is not modelled")
+    prm = fn.params()
+    env = {"self": Sym("protocol"), prm[1]: header}
+    for extra in prm[2:]:
+        env[extra] = False  # removeQuotes off: quote stripping works on the characters of a value, outside this model
+    try:
+        t = Tiny(env, default_call=default)
+        r = t.run(body)
+    except AnalysisError as e:
+        raise AnalysisError(f"[C12.2-parse-closure] _parseExtensionsHeader outside the modelled subset: {e}")
+    ok, why = False, f"{r[0]} {str(r[1])[:120]}"
+    if r[0] == "return" and isinstance(r[1], list) and len(r[1]) == 1 and isinstance(r[1][0], (list, tuple)) and len(r[1][0]) == 2 and isinstance(r[1][0][1], dict):
+        got = r[1][0][1]
+        want = {"k": [vals["v1"], vals["v3"]], "j": [vals["v2"]], "flag": [True, True]}
+        ok = set(got) == set(want) and all(len(got[k_]) == len(want[k_]) and all(a_ is b_ or a_ == b_ for a_, b_ in zip(got[k_], want[k_])) for k_ in want)
+        why = f"parameters `k=v1; j=v2; k=v3; flag; flag` are handed on as {got}"
+    ctx.ob("the extensions header parser hands every occurrence of a repeated parameter to the extension parsers (value lists in order)", ok, why, fn.loc())
+
+
 def rule_parse_closure(ctx):
     ctx.rule("C12.2-parse-closure")
     an = get_analysis(ctx)
+    _header_parser_keeps_repeats(ctx)
     count = 0
     for ext, modq in MODS.items():
         for kind in ("Offer", "Response"):
@@ -241,7 +286,7 @@ def rule_role_mapping(ctx):
                 env = {"self._is_server": is_server, f"self.{attr}": old, "self.server_no_context_takeover": s_nct, "self.client_no_context_takeover": c_nct,
                        "self.server_max_window_bits": 12, "self.client_max_window_bits": 10, "self.mem_level": 8, "self._decompressed_len": 0, "self._oversized": False,
                        "zlib.Z_DEFAULT_COMPRESSION": -1, "zlib.DEFLATED": 8}
-                t = Tiny(env, default_call=default)
+                t = Tiny(env, default_call=default, inline_self=lambda name: (ctx.program.lookup_method(pm, name).node if ctx.program.lookup_method(pm, name) is not None else None))
                 t.run(body)
                 role = own_when_server if is_server else ("client" if own_when_server == "server" else "server")
                 flag = s_nct if role == "server" else c_nct
@@ -417,14 +462,47 @@ def rule_rsv1(ctx):
     # receive side: decompress only for messages whose first frame had RSV1 under an active extension
     fb = wsp.methods["onFrameBegin"]
     g4, mf4, res4 = an.get(fb)
-    sets = find_assign_nodes(g4, "_isMessageCompressed")
-    ok = len(sets) == 2
-    for n, v in sets:
-        t = norm.text(v) == "True"
-        f = mf4.at(n)
-        both = ("is", "self._perMessageCompress", ("c", None), False) in f and ("eq", "self.current_frame.rsv", ("c", 4), True) in f
-        ok = ok and (t == both)
-    ctx.ob("onFrameBegin: message marked compressed iff extension active and RSV1 on its first frame", ok, "changed", fb.loc())
+    # the flag as a term, evaluated over (extension active) x (RSV1 on this frame): independent of how the assignment is written
+    from ..core.terms import TermEval, eval_bool, show
+    import itertools
+    te4 = TermEval(ctx.program, fb, inline=lambda c, f: None).run()
+    flag = te4.env.get("self._isMessageCompressed")
+    SELF = ("p", "self")
+    PMC = ("attr", SELF, "_perMessageCompress")
+    RSV = ("attr", ("attr", SELF, "current_frame"), "rsv")
+    ok, why = flag is not None, "flag not assigned"
+    OLD = ("attr", SELF, "_isMessageCompressed")
+    OPC = ("attr", ("attr", SELF, "current_frame"), "opcode")
+    INS = ("attr", SELF, "inside_message")
+    if flag is not None:
+        try:
+            for control, inside, ext, rsv1, old in itertools.product((True, False), repeat=5):
+                def atom(x, control=control, inside=inside, ext=ext, rsv1=rsv1, old=old):
+                    if x == OLD:
+                        return old
+                    if x == INS:
+                        return inside
+                    if x[0] == "cmp" and OPC in x[2:] and x[1] in (">", ">=", "<", "<=") and any(y[0] == "c" and isinstance(y[1], int) for y in x[2:]):
+                        cst = [y[1] for y in x[2:] if y[0] == "c"][0]
+                        opc = 9 if control else 1
+                        l_, r_ = (opc, cst) if x[2] == OPC else (cst, opc)
+                        return {">": l_ > r_, ">=": l_ >= r_, "<": l_ < r_, "<=": l_ <= r_}[x[1]]
+                    if x[0] == "cmp" and PMC in x[2:] and ("c", None) in x[2:]:
+                        return (not ext) if x[1] in ("is", "==") else ext
+                    if x == PMC:
+                        return ext
+                    if x[0] == "cmp" and RSV in x[2:] and ("c", 4) in x[2:] and x[1] in ("==", "!="):
+                        return rsv1 if x[1] == "==" else not rsv1
+                    return None
+                want = (ext and rsv1) if (not control and not inside) else old
+                got = eval_bool(flag, atom)
+                if got != want:
+                    ok = False
+                    why = (f"{'control' if control else 'data'} frame, {'inside a' if inside else 'first frame of a'} message, extension {'active' if ext else 'absent'}, "
+                           f"RSV1 {'set' if rsv1 else 'clear'}, flag before {old}: flag becomes {got}, expected {want}")
+        except AnalysisError as e:
+            ok, why = False, str(e)
+    ctx.ob("onFrameBegin: message marked compressed iff extension active and RSV1 on its first frame; control and continuation frames leave the flag alone [32 cells]", ok, why, fb.loc())
     fd = wsp.methods["onFrameData"]
     g5, mf5, res5 = an.get(fd)
     dc = [(n, c) for n in g5.stmt_nodes() for c in node_calls(n) if norm.text(c.func) == "self._perMessageCompress.decompress_message_data"]
